@@ -36,6 +36,11 @@ type DirConfig struct {
 	// probability 1/EmptyReads instead, never twice in a row
 	EmptyReads int
 	Faults     []Fault
+	// StallFor > 0: the byte at stream offset StallOff, and with it everything after it, is
+	// delivered StallFor later than it would have been (an outage, a congested link, a peer
+	// whose machine is busy): no byte is lost or changed, only time passes.
+	StallOff uint64
+	StallFor time.Duration
 }
 
 // Fault kinds.
@@ -88,6 +93,7 @@ type stream struct {
 	timerSet  bool
 	lastEmpty bool
 	rdl, wdl  time.Duration // read / write deadline in virtual time (0 = none)
+	stalled   bool
 }
 
 // expired parks-with-deadline support: reports whether the deadline dl has
@@ -240,6 +246,14 @@ func (s *stream) write(p []byte) (int, error) {
 		}
 		chunk := append([]byte(nil), data[off:off+space]...)
 		av := rt.Now() + lat
+		if s.cfg.StallFor > 0 && !s.stalled && s.written+uint64(len(chunk)) > s.cfg.StallOff {
+			s.stalled = true
+			av += s.cfg.StallFor
+			rt.Reach("pipe.delivery-stalled")
+			if rt.Tracing() {
+				rt.Tracef("stall %s: delivery pauses for %v at offset %d", s.name, s.cfg.StallFor, s.cfg.StallOff)
+			}
+		}
 		if av < s.lastAvail {
 			av = s.lastAvail
 		}
